@@ -87,6 +87,37 @@ theorem textmpub_never_truncates (k : Bool) (body : Bytes) (maxMsg maxBody : Nat
     ∃ e, textMpubHttp k body maxMsg maxBody = .error e :=
   textmpubHttp_too_big k body maxMsg maxBody hlen
 
+/-- HTTP `/pub` (with or without a `Content-Length`): what is published is exactly the request body,
+accepted iff it has 1..max-msg-size bytes — an over-long body is refused, never truncated. -/
+theorem http_pub_exact (k : Bool) (body : Bytes) (maxMsg : Nat) :
+    (∀ b, httpPub k body maxMsg = .ok b → b = body) ∧
+    ((∃ b, httpPub k body maxMsg = .ok b) ↔ (0 < body.length ∧ body.length ≤ maxMsg)) := by
+  unfold httpPub
+  by_cases h1 : (k && decide (body.length > maxMsg)) = true
+  · rw [if_pos h1]
+    simp only [Bool.and_eq_true, decide_eq_true_eq] at h1
+    exact ⟨by simp, by simp; omega⟩
+  · rw [if_neg h1]
+    by_cases h2 : (body.take (maxMsg + 1)).length = maxMsg + 1
+    · rw [if_pos h2]
+      simp only [List.length_take] at h2
+      exact ⟨by simp, by simp; omega⟩
+    · rw [if_neg h2]
+      simp only [List.length_take] at h2
+      have hle : body.length ≤ maxMsg := by omega
+      have ht : body.take (maxMsg + 1) = body := List.take_of_length_le (by omega)
+      rw [ht]
+      by_cases h3 : body.isEmpty = true
+      · rw [if_pos h3]
+        have : body.length = 0 := by simpa using h3
+        exact ⟨by simp, by simp; omega⟩
+      · rw [if_neg h3]
+        have : 0 < body.length := by
+          cases body with
+          | nil => simp at h3
+          | cons _ _ => simp
+        exact ⟨by intro b hb; injection hb with hb; exact hb.symm, ⟨fun _ => ⟨this, hle⟩, fun _ => ⟨_, rfl⟩⟩⟩
+
 /-- A diskqueue record (4-byte length + data) is read back exactly (the file I/O of
 go-diskqueue itself is an assumption). -/
 theorem dq_roundtrip (d rest : Bytes) (minSz maxSz : Nat) (h1 : minSz ≤ d.length)
@@ -158,6 +189,8 @@ example : readMPUB (mpubBody [[1, 2], [0, 0, 0, 1]] ++ [9]) 10 100 = .ok ([[1, 2
 example : (mpubCmd [[7]] (mpubBody [[1, 2]] |>.dropLast) 10 100) = ([[7]], some .badMessage) := by decide
 example : textMpubHttp false [97, 10, 10, 98] 5 100 = .ok [[97], [98]] :=
   (textmpub_split false [97, 10, 10, 98] 5 100 (by decide) (by decide)).1
+example : httpPub false [1, 2, 3, 4] 3 = .error .tooBig ∧ httpPub true [1, 2, 3] 3 = .ok [1, 2, 3] ∧
+    httpPub false [] 3 = .error .empty := ⟨rfl, rfl, rfl⟩
 /-- an upgrade in the middle: IDENTIFY response, upgrade, OK, SUB, message, flush -/
 example : let c := connRun (conn0 16) [.sendResponse ⟨0#32, [123, 125]⟩, .upgrade 64, .sendResponse ⟨0#32, [79, 75]⟩,
                       .subscribe, .sendMessage ⟨2#32, encode demoMsg⟩, .upgrade 1, .flush]
